@@ -32,11 +32,16 @@ def cases(tier, seed):
     for fam, rate, bs in gen:
         shape = files.small_shape_for(bs, rng, blocks=(2, 3), cap=400_000 if tier == 'quick' else 1_500_000)
         d = files.wspec_desc(rng, shape, rate, bs, narr=rng.choice([2, 3]))
-        if len(out) % 2 == 0:
+        fidx = len([o for o in out if o['id'].startswith('w3:')]) // nh
+        if fidx % 3 == 0:
             # inline and crossline numbers drawn from overlapping ranges with different origins: the same number names a
             # different ordinal on the two axes
             k0 = rng.choice([0, 1, 10])
             d.update(il=[k0, 1], xl=[k0 + rng.choice([1, 2, 3]), 1])
+        elif fidx % 3 == 1:
+            # descending axes (line numbers stay >= 0)
+            st = rng.choice([1, 2])
+            d.update(il=[3 + st * (shape[0] - 1), -st], xl=rng.choice([[5, 1], [7 + 3 * (shape[1] - 1), -3]]))
         for h in range(nh):
             out.append({'id': 'w3:%s:%s:%s:%d' % (fam, rate, 'x'.join(map(str, bs)), h), 'file': d,
                         'nops': rng.choice([40, 80]), 'hseed': rng.randrange(1 << 30), 'cost': 4})
@@ -110,6 +115,12 @@ def make_history(sp, rng, nops):
         hist += [(o, x) for x in hd[:2] + tf + hd]
     elif mode == 3:
         hist += [(o, ('get_tracefield_1d', (k,))) for k in sp.stored] + [(o, x) for x in hd] + [(o, ('gen_trace_header', (0,), {'load_all_headers': True}))] + [(o, x) for x in tf]
+    if not sp.is2d:
+        # directed prefix on the emulator: a slice / iteration through a line accessor, then single lines through the same accessor
+        for name, ax in (('iline', [int(v) for v in sp.ilines()]), ('xline', [int(v) for v in sp.xlines()])):
+            if len(ax) >= 2 and rng.random() < 0.5:
+                hist.append(('E.acc', ('line_iter', (name,))))
+                hist += [('E.acc', (name, (ax[0],))), ('E.acc', (name, (ax[-1],))), ('E.acc', (name, (ax[len(ax) // 2],)))]
     while len(hist) < nops:
         mode = rng.random()
         if pairs and mode > 0.93:
@@ -148,7 +159,16 @@ def make_history(sp, rng, nops):
 def emu_op(sp, rng):
     if sp.is2d:
         return (rng.choice(['trace', 'header']), (rng.randrange(-sp.ntr, sp.ntr),))
-    k = rng.choice(['iline', 'xline', 'depth_slice', 'trace', 'header', 'attributes', 'trace_slice'])
+    k = rng.choice(['iline', 'xline', 'depth_slice', 'trace', 'header', 'attributes', 'trace_slice', 'line_slice', 'line_slice', 'line_iter'])
+    if k in ('line_slice', 'line_iter'):
+        # slices / iteration through the line accessors (forward in axis order, bounds = existing non-negative line numbers)
+        name = rng.choice(['iline', 'xline'])
+        ax = [int(v) for v in (sp.ilines() if name == 'iline' else sp.xlines())]
+        if k == 'line_iter' or len(ax) < 2 or min(ax) < 0:
+            return ('line_iter', (name,))
+        i = rng.randrange(len(ax) - 1)
+        j = rng.randrange(i + 1, min(len(ax), i + 4))
+        return ('line_slice', (name, ax[i], ax[j], ax[1] - ax[0]))
     if k == 'iline':
         return (k, (int(sp.ilines()[rng.randrange(sp.nil)]),))
     if k == 'xline':
@@ -170,6 +190,10 @@ def apply(obj_kind, obj, op):
             name, a = op
             if name == 'attributes':
                 return ('ok', reads.norm(obj.attributes(a[0])[:]))
+            if name == 'line_slice':
+                return ('ok', reads.norm([np.asarray(v) for v in getattr(obj, a[0])[a[1]:a[2]:a[3]]]))
+            if name == 'line_iter':
+                return ('ok', reads.norm([np.asarray(v) for v in getattr(obj, a[0])][:3]))
             if name == 'trace_slice':
                 return ('ok', reads.norm([np.asarray(t) for t in obj.trace[a[0]:a[1]:a[2]]]))
             return ('ok', reads.norm(getattr(obj, name)[a[0]]))
